@@ -171,3 +171,58 @@ Definition perm_spec_fail (c : perm_case) : bool :=
 
 Definition perm_mismatches := Common.collect perm_mismatch.
 Definition perm_spec_failures := Common.collect perm_spec_fail.
+
+(* ---- graph helpers through the hook (C01, C03): parent map, level sort, deferral, should_cache ---- *)
+Record helper_case := {
+  hc_pred : predicate;
+  hc_seeds : list Z;                                     (* nodes whose program contains a post-state read *)
+  hc_parent_map : option (list (Z * list Z));            (* verif::parent_map; None = invalid edges *)
+  hc_pm_err : Z;                                         (* reported node index on error *)
+  hc_levels : option (list (list Z));                    (* verif::topo_sort; None = error *)
+  hc_deferred : list Z;                                  (* verif::deferred, sorted *)
+  hc_cached : list bool;                                 (* verif::cached for every node *)
+}.
+Definition natz (l : list nat) : list Z := map Z.of_nat l.
+Definition pm_eqb (a b : list (Z * list Z)) : bool := list_eqb (pair_eqb Z.eqb zlist_eqb) a b.
+Definition seeds_fn (c : helper_case) (ix : nat) : bool := existsb (Z.eqb (Z.of_nat ix)) (hc_seeds c).
+
+Definition helper_mismatch (c : helper_case) : bool :=
+  let p := hc_pred c in
+  negb (match create_parent_map p, hc_parent_map c with
+        | Ok pm, Some pm' =>
+            pm_eqb (map (fun e => (Z.of_nat (fst e), natz (snd e))) pm) pm'
+            && match parallel_topo_sort p pm, hc_levels c with
+               | Ok ls, Some ls' => zzlist_eqb (map natz ls) ls'
+               | Err _, None => true
+               | _, _ => false
+               end
+        | Err (InvalidNodeEdges ix), None => Z.of_nat ix =? hc_pm_err c
+        | _, _ => false
+        end
+        && zzlist_eqb (sort_lists (map (fun x => [x]) (natz (find_deferred p (seeds_fn c))))) (sort_lists (map (fun x => [x]) (hc_deferred c)))
+        && match hc_parent_map c with
+           | Some _ => list_eqb Bool.eqb (map (should_cache p (find_deferred p (seeds_fn c))) (seq 0 (length (p_nodes p)))) (hc_cached c)
+           | None => true
+           end).
+
+(* the declarative side: levels partition the nodes with parents strictly earlier; deferred = reachable from the seeds *)
+Definition helper_spec_fail (c : helper_case) : bool :=
+  let p := hc_pred c in
+  let n := length (p_nodes p) in
+  match hc_levels c with
+  | Some ls =>
+      let flat := concat ls in
+      negb (zzlist_eqb (sort_lists (map (fun x => [x]) flat)) (map (fun x => [x]) (natz (seq 0 n)))   (* every node exactly once *)
+            && forallb (fun l => negb (match l with [] => true | _ => false end)) ls
+            && graph_ok p)
+  | None => match hc_parent_map c with
+            | Some _ => edges_valid p && acyclic_ref p          (* rejected although valid and acyclic *)
+            | None => edges_valid p
+            end
+  end
+  || (* deferred nodes (dangling edge targets >= n are outside the claim) = ancestors-or-self contain a post-state read *)
+     (let d := filter (fun v => v <? Z.of_nat n) (hc_deferred c) in
+      negb (zlist_eqb d (natz (filter (fun v => deferred_ref p (seeds_fn c) n v) (seq 0 n))))).
+
+Definition helper_mismatches := Common.collect helper_mismatch.
+Definition helper_spec_failures := Common.collect helper_spec_fail.
